@@ -120,7 +120,13 @@ func (g *grpcHandler) ContentTypes() map[string]struct{} {
 }
 
 func (*grpcHandler) SetTimeout(request *http.Request) (context.Context, context.CancelFunc, error) {
-	timeout, err := grpcParseTimeout(request.Header.Get(grpcHeaderTimeout))
+	value := request.Header.Get(grpcHeaderTimeout)
+	if value == "" && len(request.Header.Values(grpcHeaderTimeout)) > 0 {
+		// The header is there, but empty: that's a malformed timeout, not an
+		// absent one.
+		return nil, nil, errorf(CodeInvalidArgument, "gRPC protocol error: timeout is empty")
+	}
+	timeout, err := grpcParseTimeout(value)
 	if err != nil && !errors.Is(err, errNoTimeout) {
 		// Errors here indicate that the client sent an invalid timeout header, so
 		// the error text is safe to send back.
